@@ -1,6 +1,7 @@
 package main
 
 import (
+	"bytes"
 	"fmt"
 	"io"
 	"math/rand"
@@ -62,6 +63,15 @@ func (t *vecTarget) search() ([]uint32, error) {
 	}
 	return out, err
 }
+// rsearch: a multi-query search restricted to the given ids (the pooled id filters are shared between concurrent searches)
+func (t *vecTarget) rsearch(filt []uint32) ([]uint32, error) {
+	rs, err := t.idx.NewSearch().WithQuery(cvec(3, t.dim), cvec(5, t.dim)).WithDocumentIDs(filt...).WithK(0).WithNProbes(-1).Execute()
+	out := []uint32{}
+	for _, x := range rs {
+		out = append(out, x.GetId())
+	}
+	return out, err
+}
 func (t *vecTarget) exact() bool         { return t.kind != "hnsw" }
 func (t *vecTarget) hasAuto() bool       { return false }
 func (t *vecTarget) removeMayFail() bool { return false }
@@ -89,6 +99,15 @@ func (t *bmTarget) search() ([]uint32, error) {
 		return out, err
 	}
 	return t.searchText()
+}
+
+func (t *bmTarget) rsearch(filt []uint32) ([]uint32, error) {
+	rs, err := t.idx.NewSearch().WithQuery("aa", "w0 w1 w2 w3 w4").WithDocumentIDs(filt...).WithK(0).Execute()
+	out := []uint32{}
+	for _, x := range rs {
+		out = append(out, x.GetId())
+	}
+	return out, err
 }
 
 func (t *bmTarget) searchText() ([]uint32, error) {
@@ -185,6 +204,49 @@ func (t *hybTarget) writeTo() error {
 		return nil
 	}
 	return t.h.WriteTo(io.Discard, io.Discard, io.Discard, io.Discard)
+}
+
+// image: serialise the shared hybrid index while others write to it, reload the four streams and look at the image from its three
+// sides: every document of these rounds carries all three modalities, so a consistent image shows the same ids through each, and
+// every one of them can be removed
+func (t *hybTarget) image() (v, tx, m, rmfail []uint32, err error) {
+	v, tx, m, rmfail = []uint32{}, []uint32{}, []uint32{}, []uint32{}
+	var hb, vb, tb, mb bytes.Buffer
+	if err = t.h.WriteTo(&hb, &vb, &tb, &mb); err != nil {
+		return
+	}
+	f, _ := comet.NewFlatIndex(2, comet.L2Squared)
+	fresh := comet.NewHybridSearchIndex(f, comet.NewBM25SearchIndex(), comet.NewRoaringMetadataIndex())
+	if _, err = fresh.ReadFrom(io.MultiReader(&hb, &vb, &tb, &mb)); err != nil {
+		return
+	}
+	if rs, e := fresh.NewSearch().WithVector([]float32{0, 0}).WithK(100000).Execute(); e == nil {
+		for _, x := range rs {
+			v = append(v, x.ID)
+		}
+	}
+	if rs, e := fresh.NewSearch().WithText("aa bb").WithK(100000).Execute(); e == nil {
+		for _, x := range rs {
+			tx = append(tx, x.ID)
+		}
+	}
+	if rs, e := fresh.NewSearch().WithMetadata(comet.Exists("c")).WithK(100000).Execute(); e == nil {
+		for _, x := range rs {
+			m = append(m, x.ID)
+		}
+	}
+	seen := map[uint32]bool{}
+	for _, ids := range [][]uint32{v, tx, m} {
+		for _, id := range ids {
+			if !seen[id] {
+				seen[id] = true
+				if fresh.Remove(id) != nil {
+					rmfail = append(rmfail, id)
+				}
+			}
+		}
+	}
+	return
 }
 func (t *hybTarget) search() ([]uint32, error) {
 	rs, err := t.h.NewSearch().WithVector([]float32{0, 0}).WithK(100000).Execute()
@@ -338,8 +400,24 @@ func drvConc(args []string) error {
 						log(E{"seq": seq.Add(1), "ev": "ret", "c": c, "op": "flush", "id": 0, "ok": err == nil, "err": errStr(err)})
 					case x < 14:
 						log(E{"seq": seq.Add(1), "ev": "call", "c": c, "op": "writeto", "id": 0})
+						if ht, ok := tgt.(*hybTarget); ok && ht.store == nil {
+							iv, it, im, rmf, err := ht.image()
+							log(E{"seq": seq.Add(1), "ev": "ret", "c": c, "op": "writeto", "id": 0, "ok": err == nil, "err": errStr(err), "img": true, "iv": iv, "it": it, "im": im, "rmfail": rmf})
+							continue
+						}
 						err := tgt.writeTo()
 						log(E{"seq": seq.Add(1), "ev": "ret", "c": c, "op": "writeto", "id": 0, "ok": err == nil, "err": errStr(err)})
+					case x < 16 && len(mine) > 0:
+						rt, ok := tgt.(interface {
+							rsearch([]uint32) ([]uint32, error)
+						})
+						if !ok {
+							continue
+						}
+						filt := append([]uint32{}, mine...)
+						log(E{"seq": seq.Add(1), "ev": "call", "c": c, "op": "rsearch", "id": 0})
+						res, err := rt.rsearch(filt)
+						log(E{"seq": seq.Add(1), "ev": "ret", "c": c, "op": "rsearch", "id": 0, "ok": err == nil, "res": res, "filt": filt, "exact": tgt.exact(), "err": errStr(err)})
 					default:
 						log(E{"seq": seq.Add(1), "ev": "call", "c": c, "op": "search", "id": 0})
 						res, err := tgt.search()
@@ -421,7 +499,8 @@ func drvConc(args []string) error {
 	}
 	defer t.close()
 	for _, e := range all {
-		for k, v := range map[string]any{"c": 0, "op": "", "id": 0, "ok": true, "res": []uint32{}, "exact": true, "mayfail": false, "deadlock": false, "panic": false} {
+		for k, v := range map[string]any{"c": 0, "op": "", "id": 0, "ok": true, "res": []uint32{}, "exact": true, "mayfail": false, "deadlock": false, "panic": false,
+			"img": false, "iv": []uint32{}, "it": []uint32{}, "im": []uint32{}, "rmfail": []uint32{}, "filt": []uint32{}} {
 			if _, ok := e[k]; !ok {
 				e[k] = v
 			}
